@@ -72,11 +72,23 @@ def _schema(sanitize: bool = False):
     return _P[key]
 
 
+PAYLOAD = {"form-empty": ({}, "application/x-www-form-urlencoded"), "form-min": ({"k": "a"}, "application/x-www-form-urlencoded"),
+           "text-empty": ("", "text/plain"), "json-object": ({}, "application/json"), "json-array": ([], "application/json"),
+           "json-null": (None, "application/json")}
+
+
+def method_of(el: dict) -> str:
+    return el["m"] if el.get("m", "-") != "-" else METHOD[el["slot"]]
+
+
 def case_kwargs(el: dict) -> dict:
     s = text(el["s"])
     slot = el["slot"]
     kw: dict = {"path_parameters": {"p": "a"}}
-    if slot == "header":
+    if slot in PAYLOAD:
+        body, media = PAYLOAD[slot]
+        kw.update(body=json.loads(json.dumps(body)), media_type=media)
+    elif slot == "header":
         kw["headers"] = {"X-H": s}
     elif slot == "auth":
         kw["headers"] = {"Authorization": s}
@@ -107,7 +119,7 @@ def project(rec, auth: str, keep_auto: bool) -> dict:
 def observe(el: dict) -> dict:
     """Send the case (original request, as received by the server) and obtain the reproduction command from the real code."""
     srv = _server()
-    op = _schema()["/x/{p}"][METHOD[el["slot"]]]
+    op = _schema()["/x/{p}"][method_of(el)]
     case = op.Case(**case_kwargs(el))
     auth = srv.base_url.split("://", 1)[1]
     srv.clear()
@@ -127,7 +139,7 @@ def observe(el: dict) -> dict:
            "verify": verify}
     if len(el["s"]) <= SANITIZED_LEN:
         # the same request printed with output sanitisation on: only redacted values may differ
-        case_s = _schema(True)["/x/{p}"][METHOD[el["slot"]]].Case(**case_kwargs(el))
+        case_s = _schema(True)["/x/{p}"][method_of(el)].Case(**case_kwargs(el))
         try:
             out["cmd_sanitized"] = cps(case_s.as_curl_command(headers=dict(response.request.headers), verify=verify).replace(auth, FIXED_AUTH))
         except Exception as exc:
@@ -411,7 +423,7 @@ def run(ctx: Ctx) -> Outcome:
     for inv in res.violated:
         out.violations.append(Violation("C09:spec:" + inv, "design invariant %s violated in Curl.tla" % inv,
                                         {"kind": "spec", "invariant": inv, "trace": res.counterexample[:60]}))
-    cases.sort(key=lambda c: (c["slot"], c["s"]))
+    cases.sort(key=lambda c: (c["slot"], c["m"], c["s"]))
     t1 = time.time()
     observed = common.pmap(_work, cases)
     t_replay = time.time() - t1
@@ -426,7 +438,7 @@ def run(ctx: Ctx) -> Outcome:
     cmd_errors_outside = sum(1 for i, o in enumerate(observed) if "cmd_error" in o and not cases[i]["fragment"])
     # environment binding: execute a stratified sample with the real sh + curl
     n_exec = 150 if ctx.quick else 3000
-    picks = stratified(rng, [((cases[i]["slot"], features(cases[i])), i) for i, _ in sendable], n_exec)
+    picks = stratified(rng, [((cases[i]["slot"] + ":" + cases[i]["m"], features(cases[i])), i) for i, _ in sendable], n_exec)
     t2 = time.time()
     execs = dict(zip(picks, common.pmap(_exec_work, [observed[i]["cmd"] for i in picks], chunk=4)))
     t_exec = time.time() - t2
@@ -502,10 +514,11 @@ def run(ctx: Ctx) -> Outcome:
         "samples": [{"slot": c["slot"], "string": text(c["s"]), "command": text(o["cmd"]), "verdict": v["same"], "executed": o["hasExec"]}
                     for c, o, v in common.sample(rng, pool, 5)],
         "evaluations": len(obs) + len(obs_s),
-        "distinct_nontrivial": len({(cases[i]["slot"], tuple(cases[i]["s"])) for i, _ in sendable if features(cases[i])}),
+        "distinct_nontrivial": len({(cases[i]["slot"], cases[i]["m"], tuple(cases[i]["s"])) for i, _ in sendable if features(cases[i])}),
         "rule": "every element of Curl.tla's family under %s (TLC-enumerated strings over {a ' \" \\ $ ` space newline @ ; : & %%} in the "
                 "header-value, Authorization, query, path, cookie, text/JSON/form body slots); each built into a real case, sent, and its printed command "
-                "judged; non-trivial = the string contains a shell / curl significant character or is empty; strings of length <= %d are also printed with "
+                "judged; plus empty / minimal payloads ({} and {k: a} as form, the empty text, {} [] null as JSON) for POST, PUT and PATCH; non-trivial = "
+                "the string contains a shell / curl significant character or is empty; strings of length <= %d are also printed with "
                 "output sanitisation on and compared up to [Filtered] values" % (cfg, SANITIZED_LEN),
         "exhaustive": True,
         "constants": {"cfg": cfg, "curl": "7.88.1", "sh": "/bin/sh"},
@@ -513,8 +526,9 @@ def run(ctx: Ctx) -> Outcome:
         "commands_same": n_t,
         "commands_differ": len(fails),
         "executed_by_real_sh_and_curl": len(picks),
-        "executed_strata": len({(cases[i]["slot"], features(cases[i])) for i in picks}),
-        "strata_total": len({(cases[i]["slot"], features(cases[i])) for i, _ in sendable}),
+        "executed_strata": len({(cases[i]["slot"], cases[i]["m"], features(cases[i])) for i in picks}),
+        "strata_total": len({(cases[i]["slot"], cases[i]["m"], features(cases[i])) for i, _ in sendable}),
+        "empty_or_minimal_payload_elements": sum(1 for c in cases if c["m"] != "-"),
         "model_matches_real_tools": sum(1 for v in verdicts if v["model"] == "T"),
         "model_indefinite_on_executed": sum(1 for v in verdicts if v["model"] == "U"),
         "executed_same_as_original": sum(1 for v in verdicts if v["exec"] == "T"),
